@@ -154,9 +154,10 @@ def rule_decimal(ctx):
     max_length = 5 if ctx.thorough else 4
 
     def cell(ch):
-        decimal_separator, thousands_separator = ch.choose("separators", [(".", ","), (",", "."), (".", "")])
+        decimal_separator, thousands_separator = ch.choose("separators", [(".", ","), (",", "."), (".", ""), (",", "")])
         length = ch.choose("length", list(range(1, max_length + 1)))
-        alphabet = [decimal_separator, "7"] + ([thousands_separator] if thousands_separator else [","])
+        # third character: the thousands separator, or (none declared) the decimal mark of the OTHER convention
+        alphabet = [decimal_separator, "7"] + ([thousands_separator] if thousands_separator else ["," if decimal_separator == "." else "."])
         text = "".join(ch.choose(("char", index), alphabet) for index in range(length))
         converted = []
         number = Sym("d")
@@ -201,6 +202,11 @@ def rule_decimal(ctx):
                 if seen_decimal:
                     refused = True
                     break
+            elif character == ".":
+                # "a number written with the data format's decimal and thousands separators": a point that is neither of
+                # them is not part of such a number (it must not reach Decimal(), which would read it as decimal point)
+                refused = True
+                break
             else:
                 translated += character
         key = "separators=%r/%r text=%r Decimal=%s range=%s" % (decimal_separator, thousands_separator, text, conversion, verdict)
@@ -663,7 +669,8 @@ def rule_range_membership(ctx):
     before - is part of C02's obligations."""
     from .c01 import rule_membership
 
-    rule_membership(ctx)
+    # a Decimal cell is "a number written with the data format's decimal and thousands separators": Infinity is none
+    rule_membership(ctx, infinity=True)
 
 
 from .common import rule_module_state  # noqa: E402
